@@ -179,9 +179,77 @@ func (e *Engine) detAnalysis(patterns []string) []*Obligation {
 	return out
 }
 
+// unsortedReturners: functions that return a slice built in map iteration order without sorting it.
+func (e *Engine) unsortedReturners(em map[*ssa.Function]string) map[*ssa.Function]bool {
+	if e.unsortedRet != nil {
+		return e.unsortedRet
+	}
+	e.unsortedRet = map[*ssa.Function]bool{}
+	for p := range e.spkgs {
+		if !strings.HasPrefix(p, modulePath) {
+			continue
+		}
+		for _, fn := range e.allFunctions(p) {
+			li := e.loopsOf(fn)
+			for h := range li.headers {
+				isMapRange := false
+				for _, in := range fn.Blocks[h].Instrs {
+					if nx, ok := in.(*ssa.Next); ok && !nx.IsString {
+						if rg, ok := nx.Iter.(*ssa.Range); ok && isMap(rg.X.Type()) {
+							isMapRange = true
+						}
+					}
+				}
+				if !isMapRange {
+					continue
+				}
+				for _, r := range e.detLoop(fn, li, h, em) {
+					if strings.Contains(r, "is returned without being sorted") {
+						e.unsortedRet[fn] = true
+					}
+				}
+			}
+		}
+	}
+	return e.unsortedRet
+}
+
 func (e *Engine) detFunction(fn *ssa.Function, em map[*ssa.Function]string) []*Obligation {
 	var out []*Obligation
 	li := e.loopsOf(fn)
+	// results of functions that return map-ordered slices must be sorted before any order-sensitive use
+	ur := e.unsortedReturners(em)
+	cnt := map[string]int{}
+	for _, b := range fn.Blocks {
+		for _, in := range b.Instrs {
+			call, ok := in.(*ssa.Call)
+			if !ok {
+				continue
+			}
+			sc := call.Call.StaticCallee()
+			if sc == nil || !ur[sc] {
+				continue
+			}
+			base := fmt.Sprintf("%s#det:unsorted-result:%s", e.shortName(fn), e.shortName(sc))
+			cnt[base]++
+			name := base
+			if cnt[base] > 1 {
+				name = fmt.Sprintf("%s~%d", base, cnt[base])
+			}
+			o := &Obligation{Name: name, Class: "det", Func: e.shortName(fn), Solver: "govc-typestate"}
+			if p := e.prog.Fset.Position(call.Pos()); p.IsValid() {
+				o.Pos = fmt.Sprintf("%s:%d", strings.TrimPrefix(p.Filename, e.repo+"/"), p.Line)
+			}
+			// -1: no enclosing loop to exclude
+			reasons := e.unsortedUsesOutside(fn, call)
+			if len(reasons) == 0 {
+				o.Status, o.Detail = "proved", "the map-ordered result is sorted before any order-sensitive use (or only counted)"
+			} else {
+				o.Status, o.Detail = "failed", strings.Join(reasons, "; ")
+			}
+			out = append(out, o)
+		}
+	}
 	type loopRec struct {
 		h    int
 		next *ssa.Next
@@ -558,4 +626,11 @@ func sameAddr(a, b ssa.Value) bool {
 		}
 	}
 	return false
+}
+
+
+// unsortedUsesOutside: uses of a map-ordered slice value anywhere in the function (no loop to exclude).
+func (e *Engine) unsortedUsesOutside(fn *ssa.Function, root ssa.Value) []string {
+	li := &loopInfo{body: map[int]map[int]bool{-1: {}}}
+	return e.unsortedUses(fn, li, -1, root, map[ssa.Value]bool{})
 }
